@@ -32,6 +32,14 @@ class CallGraph:
                 if it in crate.bodies:
                     trait_impl_methods.setdefault((tr, m), []).append(it)
         self.trait_impl_methods = trait_impl_methods
+        # impl header text ("<U as Trait<T>>") -> {method: body}
+        self.by_header = {}
+        for imp in crate.impls:
+            h = imp.get("trait_full")
+            if h:
+                for it in imp["items"]:
+                    if it in crate.bodies:
+                        self.by_header.setdefault(h, {})[it.rsplit("::", 1)[-1]] = it
         for name, body in crate.bodies.items():
             loc = self.local.setdefault(name, set())
             ext = self.ext.setdefault(name, set())
@@ -55,10 +63,32 @@ class CallGraph:
                     if o.get("k") == "const" and o.get("fn") and o["fn"] in crate.bodies:
                         loc.add(o["fn"])
 
+    def forwarded(self, c):
+        """std blanket impls that forward to a local impl: Into->From, TryInto->TryFrom,
+        ToString->Display, str::parse->FromStr."""
+        cal = c.callee or ""
+        g = c.gargs
+        h = None
+        m = None
+        if cal == "std::convert::Into::into" and len(g) >= 2:
+            h, m = "<%s as std::convert::From<%s>>" % (g[1], g[0]), "from"
+        elif cal == "std::convert::TryInto::try_into" and len(g) >= 2:
+            h, m = "<%s as std::convert::TryFrom<%s>>" % (g[1], g[0]), "try_from"
+        elif cal == "std::string::ToString::to_string" and g:
+            h, m = "<%s as std::fmt::Display>" % g[0].lstrip("&"), "fmt"
+        elif cal == "core::str::<impl str>::parse" and g:
+            h, m = "<%s as std::str::FromStr>" % g[0], "from_str"
+        if h and h in self.by_header and m in self.by_header[h]:
+            return self.by_header[h][m]
+        return None
+
     def targets(self, c):
         """Possible callee names of a call site."""
         if c.callee is None:
             return ["<indirect>"]
+        f = self.forwarded(c)
+        if f:
+            return [f, c.resolved or c.callee]
         if not c.is_dyn() and c.resolved:
             return [c.resolved]
         # dynamic: closed world over local impls of the trait
